@@ -50,6 +50,8 @@ def build(d):
         return o
     if t == "sync":
         return _native_sync(d)
+    if t == "handler":
+        return _native_handler(d)
     if t == "ntuple":
         mod, qn = d["cls"].split(":")
         cls = getattr(importlib.import_module(mod), qn)
@@ -68,6 +70,43 @@ def build(d):
             o.__dict__[k] = o.__dict__[src][idx] if idx is not None else o.__dict__[src]
         return o
     raise ValueError("cannot rebuild %r" % (d,))
+
+
+_HANDLER_CHOICES = []
+
+
+class _NativeHandler(object):
+    """stand-in for an unknown route handler: logs every call in the native ghost state and produces the
+    outcome the counterexample chose for that call"""
+
+    def __init__(self, d):
+        self.tag = d["tag"]
+        self.__name__ = d.get("name", "handler")
+        self.outcomes = d["outcomes"]
+
+    def __call__(self, *args, **kwargs):
+        from pyvc import spec
+        spec._GHOST.setdefault("calls", []).append((self.tag, list(args)))
+        k = 0
+        for i, (t, kk) in enumerate(_HANDLER_CHOICES):
+            if t == self.tag:
+                k = kk
+                del _HANDLER_CHOICES[i]
+                break
+        o = self.outcomes[k]
+        if o["kind"] == "echo":
+            return args[0]
+        if o["kind"] == "raise":
+            mod, qn = o["cls"].split(":")
+            cls = importlib.import_module(mod)
+            for p in qn.split("."):
+                cls = getattr(cls, p)
+            raise cls(*[build(a) for a in o["args"]])
+        return build(o["value"])
+
+
+def _native_handler(d):
+    return _NativeHandler(d)
 
 
 def _native_sync(d):
@@ -125,6 +164,24 @@ def _native_sync(d):
     raise ValueError("cannot rebuild sync %r" % (d,))
 
 
+def _owner_of(parts):
+    """the class or module whose attribute parts[-1] is, for a dotted target path; None when that cannot be
+    resolved to a plain class/module (e.g. `Class.prop.fget`)"""
+    for i in range(len(parts) - 1, 0, -1):
+        try:
+            obj = importlib.import_module(".".join(parts[:i]))
+        except ImportError:
+            continue
+        for p in parts[i:-1]:
+            obj = getattr(obj, p, None)
+            if obj is None or isinstance(obj, property):
+                return None
+        if isinstance(obj, type) or isinstance(obj, types.ModuleType):
+            return obj
+        return None
+    return None
+
+
 def install_loggers(api, current, stubs=(), choices=()):
     """natively, the ghost event log is filled by wrappers around the real functions whose contracts
     declare `log_entry` (the function under replay itself is not wrapped)"""
@@ -139,9 +196,14 @@ def install_loggers(api, current, stubs=(), choices=()):
                 or not c.at_calls or isinstance(c.target_obj, type):
             continue
         parts = c.target.split(".")
-        owner = importlib.import_module(".".join(parts[:-2]))
-        owner = getattr(owner, parts[-2])
+        owner = _owner_of(parts)
+        if owner is None:
+            continue          # property accessors and the like are not wrapped
         orig = c.target_obj
+        raw = owner.__dict__.get(parts[-1]) if isinstance(owner, type) else getattr(owner, parts[-1], None)
+        if isinstance(raw, (property, classmethod)) or raw is None:
+            continue
+        is_static = isinstance(raw, staticmethod)
         if getattr(orig, "_pyvc_logged", False):
             continue
 
@@ -185,7 +247,7 @@ def install_loggers(api, current, stubs=(), choices=()):
                 return None
             return _orig(*a, **kw)
         wrapper._pyvc_logged = True
-        setattr(owner, parts[-1], wrapper)
+        setattr(owner, parts[-1], staticmethod(wrapper) if is_static else wrapper)
 
 
 def call_spec(fn, ns):
@@ -218,7 +280,11 @@ def main():
             val = build(v)
             setattr(owner, attr, val)
             ns["state_" + attr] = val
-        install_loggers(api, c, w.get("stubs", ()), w.get("choices", ()))
+        try:
+            install_loggers(api, c, w.get("stubs", ()), w.get("choices", ()))
+        except Exception:  # noqa   (wrapping is an aid to the oracle, never a reason for a replay to fail)
+            out["wrap_error"] = traceback.format_exc()[-300:]
+        _HANDLER_CHOICES[:] = [list(x) for x in w.get("handler_outcomes", [])]
         if c.setup_spec is not None:
             call_spec(c.setup_spec, ns)
         if getattr(c, "snapshot_spec", None) is not None:
